@@ -348,3 +348,136 @@ theorem sub_ft_bound {x : TwoFloat} {f : F64} (hv : x.Valid) (hw : x.WF)
   exact this
 
 end TwoFloat
+
+/-! ## 4. DWTimesFP3 on integers -/
+
+namespace F64
+
+/-- the binade of `p / q` on `p` itself, lower end -/
+theorem quot_ulp_le {p q : Nat} (hq : 0 < q) (h : Nat.log2 (p / q) - 52 ≠ 0) :
+    2 ^ 52 * (q * 2 ^ (Nat.log2 (p / q) - 52)) ≤ p := by
+  have h52 : 2 ^ 52 ≤ p / q := by
+    by_contra hc
+    exact h (log2_sub_eq_zero (by omega))
+  exact ((quot_binade_iff hq).1 (log2_sub_spec h52)).1
+
+/-- a low word that points towards zero is below `|xh| / (2^53 + 2)` -/
+theorem fix_opposite {xh xl : Int} (hfix : xh = rnI (xh + xl)) (h : |xh + xl| < |xh|) :
+    (2 ^ 53 + 2) * |xl| ≤ |xh| := by
+  have hl := half_ulp_of_fix hfix
+  by_cases ha : Nat.log2 xh.natAbs - 52 = 0
+  · rw [ha, pow_zero] at hl
+    have h0 : |xl| = 0 := by have := abs_nonneg xl; omega
+    rw [h0, mul_zero]; exact abs_nonneg _
+  · obtain ⟨e, he⟩ : ∃ e, Nat.log2 xh.natAbs - 52 = e + 1 := ⟨Nat.log2 xh.natAbs - 52 - 1, by omega⟩
+    have lx := ulp_mul_le_abs ha
+    have hr : RepI xh := by rw [hfix]; exact repI_rnI _
+    have dx := hr.ulp_dvd
+    rw [he, pow_succ] at hl lx dx
+    have pE := two_pow_pos' e
+    rcases lt_or_ge |xh| (2 ^ 52 * (2 ^ e * 2) + 2 ^ e * 2) with hc | hc
+    · -- `|xh|` is the power of two `2^52·ulp`
+      have hd : (2 : Int) ^ e * 2 ∣ |xh| - 2 ^ 52 * (2 ^ e * 2) :=
+        dvd_sub ((dvd_abs _ _).2 dx) (Dvd.intro_left _ rfl)
+      have h0 := Int.eq_zero_of_abs_lt_dvd hd (by rw [abs_of_nonneg (by omega)]; omega)
+      have hfl := fix_lower (e := e) hfix (by omega)
+      generalize (2 : Int) ^ e = E at *
+      rcases abs_cases xh with ⟨e1, _⟩ | ⟨e1, _⟩ <;> rcases abs_cases xl with ⟨e2, _⟩ | ⟨e2, _⟩ <;>
+      rcases abs_cases (xh + xl) with ⟨e3, _⟩ | ⟨e3, _⟩ <;> rw [e1] at h h0 <;> rw [e3] at h hfl <;>
+      rw [e2] at hl <;> rw [e1, e2] <;> omega
+    · generalize (2 : Int) ^ e = E at *
+      omega
+
+/-- **DWTimesFP3 (Joldes–Muller–Popescu 2017, Algorithm 9), scaled integers.**  `(xh, xl)` a normalised pair,
+`xh·f = Q·U` the exact product in units of `U` (`U = 2^1074` in the application: no underflow in 2Prod),
+`ch = RN(Q)`, `cl1 = Q - ch`, `cl3 = RN((xl·f + cl1·U) / U)` the FMA: the rounding error of `cl3` — the total
+error, Fast2Sum being exact — is at most `2u² = 2^-105` times the exact product. -/
+theorem dwtimesfp_err {xh xl f Q : Int} {U : Nat} (hU : 0 < U) (hfix : xh = rnI (xh + xl))
+    (hQ : xh * f = Q * (U : Int)) (hlow : xh * f = 0 ∨ 2 ^ 105 * (U : Int) ≤ |xh * f|) :
+    2 ^ 105 * |(xl * f + (Q - rnI Q) * (U : Int)) + -(rqI (xl * f + (Q - rnI Q) * (U : Int)) U) * (U : Int)|
+      ≤ |(xh + xl) * f| := by
+  have hUi : (0 : Int) < (U : Int) := Int.natCast_pos.2 hU
+  have hl := half_ulp_of_fix hfix
+  have h53 : 2 ^ 53 * |xl| ≤ |xh| := by
+    have := two_pow_mul_le_of_half_ulp hl
+    rw [← Int.natCast_natAbs xl, ← Int.natCast_natAbs xh]
+    exact_mod_cast this
+  rcases hlow with h0 | hlow
+  · have hQ0 : Q = 0 := by
+      rw [h0] at hQ
+      rcases mul_eq_zero.1 hQ.symm with h | h
+      · exact h
+      · omega
+    have hxl : xl * f = 0 := by
+      rcases mul_eq_zero.1 h0 with h | h
+      · have : |xl| = 0 := by
+          rw [h, abs_zero] at h53
+          have := abs_nonneg xl
+          omega
+        rw [abs_eq_zero.1 this, zero_mul]
+      · rw [h, mul_zero]
+    rw [hxl, hQ0, rnI_zero]
+    simp
+  · have he := abs_sub_rqI_mul (xl * f + (Q - rnI Q) * (U : Int)) hU
+    have hA : |xh * f| = |Q| * (U : Int) := by rw [hQ, abs_mul, abs_of_pos hUi]
+    have h1 : 2 ^ 53 * |xl * f| ≤ |xh * f| := by
+      rw [abs_mul, abs_mul, ← mul_assoc]
+      exact mul_le_mul_of_nonneg_right h53 (abs_nonneg f)
+    have h6 : |xh * f| ≤ |(xh + xl) * f| + |xl * f| := by
+      have := abs_add_le ((xh + xl) * f) (-(xl * f))
+      rw [abs_neg] at this
+      have e : (xh + xl) * f + -(xl * f) = xh * f := by ring
+      rwa [e] at this
+    have h7 : |(xh + xl) * f| < |xh * f| → (2 ^ 53 + 2) * |xl * f| ≤ |xh * f| := by
+      intro h
+      rw [abs_mul, abs_mul] at h
+      have h' : |xh + xl| < |xh| := lt_of_mul_lt_mul_right h (abs_nonneg f)
+      have := fix_opposite hfix h'
+      rw [abs_mul, abs_mul, ← mul_assoc]
+      exact mul_le_mul_of_nonneg_right this (abs_nonneg f)
+    have h2 : |xl * f + (Q - rnI Q) * (U : Int)| ≤ |xl * f| + |Q - rnI Q| * (U : Int) := by
+      have := abs_add_le (xl * f) ((Q - rnI Q) * (U : Int))
+      rwa [abs_mul (Q - rnI Q), abs_of_pos hUi] at this
+    have hC : ∀ j : Nat, |xh * f| < 2 ^ 53 * 2 ^ j * (U : Int) →
+        2 * (|Q - rnI Q| * (U : Int)) ≤ 2 ^ j * (U : Int) := by
+      intro j h
+      rw [hA] at h
+      have hq : |Q| < 2 ^ 53 * 2 ^ j := lt_of_mul_lt_mul_right h (le_of_lt hUi)
+      have hk := ulpexp_le_of_abs_lt hq
+      have ew := two_mul_abs_rnI_sub_le Q
+      rw [abs_sub_comm] at ew
+      push_cast at ew
+      have hp : (2 : Int) ^ (Nat.log2 Q.natAbs - 52) ≤ 2 ^ j := pow_le_pow_right₀ (by norm_num) hk
+      have h3 : 2 * |Q - rnI Q| ≤ 2 ^ j := le_trans ew hp
+      rw [← mul_assoc]
+      exact mul_le_mul_of_nonneg_right h3 (le_of_lt hUi)
+    by_cases hk : Nat.log2 ((xl * f + (Q - rnI Q) * (U : Int)).natAbs / U) - 52 = 0
+    · rw [hk, pow_zero, mul_one] at he
+      omega
+    · have h3 : 2 ^ 52 * ((U : Int) * 2 ^ (Nat.log2 ((xl * f + (Q - rnI Q) * (U : Int)).natAbs / U) - 52))
+          ≤ |xl * f + (Q - rnI Q) * (U : Int)| := by
+        have := quot_ulp_le hU hk
+        rw [← Int.natCast_natAbs (xl * f + (Q - rnI Q) * (U : Int))]
+        exact_mod_cast this
+      have hC1 := hC (51 + (Nat.log2 ((xl * f + (Q - rnI Q) * (U : Int)).natAbs / U) - 52))
+      have hC2 := hC (52 + (Nat.log2 ((xl * f + (Q - rnI Q) * (U : Int)).natAbs / U) - 52))
+      rw [pow_add] at hC1 hC2
+      generalize Nat.log2 ((xl * f + (Q - rnI Q) * (U : Int)).natAbs / U) - 52 = k at *
+      have e1 : (2 : Int) ^ 53 * (2 ^ 51 * 2 ^ k) * (U : Int) = 2 ^ 104 * ((U : Int) * 2 ^ k) := by ring
+      have e2 : (2 : Int) ^ 51 * 2 ^ k * (U : Int) = 2 ^ 51 * ((U : Int) * 2 ^ k) := by ring
+      have e3 : (2 : Int) ^ 53 * (2 ^ 52 * 2 ^ k) * (U : Int) = 2 ^ 105 * ((U : Int) * 2 ^ k) := by ring
+      have e4 : (2 : Int) ^ 52 * 2 ^ k * (U : Int) = 2 ^ 52 * ((U : Int) * 2 ^ k) := by ring
+      rw [e1, e2] at hC1
+      rw [e3, e4] at hC2
+      have pK : 0 < (U : Int) * 2 ^ k := mul_pos hUi (two_pow_pos' k)
+      generalize (U : Int) * 2 ^ k = K at *
+      rcases lt_or_ge |xh * f| (2 ^ 104 * K) with hc | hc
+      · have := hC1 hc
+        omega
+      · rcases lt_or_ge |(xh + xl) * f| (2 ^ 104 * K) with hx | hx
+        · have h7' := h7 (by omega)
+          have := hC2 (by omega)
+          omega
+        · omega
+
+end F64
